@@ -60,3 +60,51 @@ Print Assumptions C14_untouched.
 Print Assumptions C14_filler_duration.
 Print Assumptions C14_no_filler.
 Print Assumptions C14_same_duration.
+
+(* ---- audit follow-ups (Proofs/OpsForceExtra.v): the property's quantifier has d >= 1 ms ---- *)
+From Astisub Require Import Proofs.OpsForceExtra.
+
+(* with d >= 1 ms the filler [d - 1 ms, d) never starts at a negative time, and no cue of the result does *)
+Theorem C14_filler_start_nonneg : forall u d, ms <= d -> 0 <= st (dummy_item u d).
+Proof. exact filler_start_nonneg. Qed.
+Theorem C14_starts_nonneg : forall d dummy u l, wf_timeline l -> ms <= d ->
+  Forall (fun x => 0 <= st x) l -> Forall (fun x => 0 <= st x) (force_duration d dummy u l).
+Proof. exact force_starts_nonneg. Qed.
+(* the filler is added (requested, and the kept part is empty or ends before d): result = kept part ++ filler, and it
+   lasts exactly d *)
+Theorem C14_filler_added : forall d u l, wf_timeline l -> 0 < d -> duration (kept d l) < d ->
+  force_duration d true u l = kept d l ++ [dummy_item u d] /\ duration (force_duration d true u l) = d.
+Proof. exact force_filler_added. Qed.
+(* a cue is clipped (st < d < en) or ends exactly at d: whatever the filler flag nothing is appended and the result
+   lasts exactly d *)
+Theorem C14_clipped_duration : forall d dummy u l x, wf_timeline l -> 0 < d -> In x l -> st x < d -> d <= en x ->
+  force_duration d dummy u l = kept d l /\ duration (force_duration d dummy u l) = d.
+Proof. exact force_clipped_duration. Qed.
+(* d >= 1 ms, filler requested: the result lasts exactly d and every cue of it, the filler included, has positive length *)
+Theorem C14_exact_duration : forall d u l, wf_timeline l -> ms <= d ->
+  duration (force_duration d true u l) = d /\ Forall (fun x => st x < en x) (force_duration d true u l).
+Proof. exact force_exact_duration. Qed.
+
+(* non-vacuity: cues with text; d inside the last cue; d in a gap; d = 1 ms on the empty list; d < 1 ms (outside the
+   domain: the filler would start before 0) *)
+Example C14_ex_clipped :
+  map (fun x => (uid x, st x, en x, item_text x)) (force_duration (8 * ms) true 9%N ex_tl2) =
+  [(1%N, 0, 3 * ms, [65%N]); (2%N, 3 * ms, 5 * ms, [66%N]); (3%N, 7 * ms, 8 * ms, [67%N])].
+Proof. exact ex_clipped. Qed.
+Example C14_ex_filler :
+  map (fun x => (uid x, st x, en x, item_text x)) (force_duration (6 * ms) true 9%N ex_tl2) =
+  [(1%N, 0, 3 * ms, [65%N]); (2%N, 3 * ms, 5 * ms, [66%N]); (9%N, 5 * ms, 6 * ms, [46; 46; 46]%N)].
+Proof. exact ex_filler. Qed.
+Example C14_ex_hyps : wf_timeline ex_tl2 /\ duration (kept (6 * ms) ex_tl2) < 6 * ms /\
+  In (ex_cue 3 (7 * ms) (9 * ms) 67) ex_tl2 /\ 7 * ms < 8 * ms <= 9 * ms.
+Proof. split; [exact ex_tl2_wf | split; [exact ex_filler_hyp | exact ex_clipped_hyp]]. Qed.
+Example C14_ex_one_ms : map (fun x => (st x, en x)) (force_duration ms true 9%N []) = [(0, ms)].
+Proof. exact ex_one_ms. Qed.
+Example C14_ex_below_one_ms : map (fun x => (st x, en x)) (force_duration 500 true 9%N []) = [(-999500, 500)].
+Proof. exact ex_below_one_ms. Qed.
+
+Print Assumptions C14_filler_start_nonneg.
+Print Assumptions C14_starts_nonneg.
+Print Assumptions C14_filler_added.
+Print Assumptions C14_clipped_duration.
+Print Assumptions C14_exact_duration.
